@@ -3,6 +3,7 @@ package aggregator
 import (
 	"fmt"
 	"reflect"
+	"strconv"
 	"strings"
 	"sync"
 
@@ -218,11 +219,14 @@ func (ga *GroupAggregator) Add(data any) error {
 			continue
 		}
 
-		if str, ok := fieldVal.(string); ok {
-			key += str + groupKeySep
-		} else {
-			key += fmt.Sprintf("%v", fieldVal) + groupKeySep
+		// Length-prefix every value so that a value containing the separator (or equal
+		// to the NULL marker) cannot collide with another tuple: "<len>:<text>" never
+		// starts with \x00 and is self-delimiting.
+		str, ok := fieldVal.(string)
+		if !ok {
+			str = fmt.Sprintf("%v", fieldVal)
 		}
+		key += strconv.Itoa(len(str)) + ":" + str + groupKeySep
 		keyVals = append(keyVals, fieldVal)
 	}
 
